@@ -195,6 +195,9 @@ def deep_snapshot(t):
     return None if t is None else [list(r) for r in t]
 
 
+EXTRA_JOIN_IDS = ['stra\u00dfe', 'ma\u00dfgr\u00f6\u00dfe.csv', '\ufb03les/\u01f0oin', 'B\u00df', '\u0130d.tbl']
+
+
 def run_py(ns, qtext, A, B=None, a_names=None, b_names=None, false_at=None, budget=None, normalize=True, init_code='', input_iter=None, scribble=True, on_step=None, who='', mutating_sink=None):
     """Execute through the public `rbql.query` with probe iterator / writer / registry.  Sources are snapshotted before and
     compared after, also when the query raises."""
@@ -210,7 +213,10 @@ def run_py(ns, qtext, A, B=None, a_names=None, b_names=None, false_at=None, budg
     w = PW(log, false_at=false_at, on_step=on_step, who='W' + who, mutating=mutating_sink)
     reg = None
     if B is not None:
-        reg = PR({'b': (B, b_names), 'B': (B, b_names)}, log, normalize, on_step=on_step)
+        tables = {'b': (B, b_names), 'B': (B, b_names)}
+        for tid in EXTRA_JOIN_IDS:
+            tables[tid] = (B, b_names)      # the same table under ids a registry of the caller may use: text that is not ASCII, that changes its length under upper()
+        reg = PR(tables, log, normalize, on_step=on_step)
     warnings = []
     o = Obs()
     o.error = None
